@@ -54,6 +54,21 @@ def r1_verdict_expression(ctx, rep, R='C02.R1'):
               key='verdict:final', func=fi.qualname, where=ctx.where(fi, last[0].ast if last else fi.node))
     if len(last) != 1:
         return
+    # nothing that can still add to an accumulator runs after the verdict was computed
+    after = g.reach([last[0].id])
+    late = []
+    for nid in sorted(after):
+        for c in node_calls(g, nid):
+            args = list(c.args) + [k.value for k in c.keywords]
+            if any(_acc_of(a) for a in args) or (
+                    isinstance(c.func, ast.Attribute) and _acc_of(c.func.value) and
+                    c.func.attr in ('append', 'extend', 'insert')):
+                late.append((nid, c))
+    rep.check(not late, R, 'the verdict is computed after everything that can record a failure',
+              '%s can still add to the accumulators after self.failed was computed: such a failure '
+              '(e.g. a tearDown error of a left-over layer) is printed but does not make the verdict '
+              '"failed"' % [norm(c)[:60] for n_, c in late], key='verdict:too-early',
+              func=fi.qualname, where=ctx.where(fi, late[0][1]) if late else '')
     expr = last[0].ast.value
     if isinstance(expr, ast.Call) and dotted(expr.func) == 'bool' and len(expr.args) == 1:
         expr = expr.args[0]
